@@ -519,6 +519,13 @@ func (x *Exec) eval(sx *SX, env *Env) Val {
 		// (arrof s): the backing array (an object reference; 0 for the nil slice) of slice s
 		v := ev(0)
 		return Val{S: x.refOf(v), T: types.Typ[types.Int]}
+	case "newinloop":
+		// (newinloop x): x was allocated during the current loop iteration (since the loop head); step assertions only
+		if env.lnow == "" {
+			x.specFail("newinloop outside a loop step assertion")
+		}
+		v := ev(0)
+		return Val{S: fmt.Sprintf("(>= (born %s) %s)", x.refOf(v), env.lnow), T: types.Typ[types.Bool]}
 	case "old-now":
 		return Val{S: env.onow, T: types.Typ[types.Int]}
 	case "rowat":
